@@ -1,3 +1,519 @@
+//! Part 4: extension runs as explicit-state search.
+//!
+//! state      = (font bytes, harness models of its mapping tables, the client's URI bookkeeping)
+//! transition = pick a subset definition d from D4 -> `select_next_patches(font, d)` -> the client
+//!              inserts `Pending(bytes)` for every group URI it has not seen (bytes from the harness
+//!              patch store, which is consistent with the *current* mapping tables: glyph keyed
+//!              patches carry the table's compat id; a partially invalidating patch replaces its own
+//!              mapping table by the same table with that entry retired and a new compat id; a fully
+//!              invalidating patch does so for both tables) -> `apply_next_patches_with_decoder`.
+//! Breadth first over all definitions at every state, states de-duplicated on
+//! (font bytes, sorted bookkeeping). Checked on every transition: the call returns; on Ok at least
+//! one URI that was not Applied before is Applied now and nothing else changed except those; on Err
+//! the bookkeeping is unchanged; no path is longer than the horizon (#entries + 2); after an Ok the
+//! mapping tables of the new font are exactly what the applied patches say (applied entries retired).
+//! A second store variant is *inconsistent* (invalidating patches leave the mapping untouched): the
+//! same URI is then offered again and the run must end in Err rather than loop.
+
+use crate::model::*;
+use crate::patches::*;
 use crate::*;
-pub fn run_ext(_ctx: &Ctx, _base: &BaseTables) {}
-pub fn replay(_run: &Run, _base: &BaseTables, _case: &Value) {}
+use incremental_font_transfer::patch_group::{PatchGroup, UriStatus};
+use shared_brotli_patch_decoder::NoopBrotliDecoder;
+use std::collections::VecDeque;
+
+#[derive(Clone, serde::Serialize, serde::Deserialize)]
+pub struct ExtScenario {
+    pub ift: TableModel,
+    pub iftx: Option<TableModel>,
+    pub consistent_store: bool,
+}
+
+#[derive(Clone)]
+struct State {
+    font: Vec<u8>,
+    ift: Option<TableModel>,
+    iftx: Option<TableModel>,
+    /// uri -> applied?  (pending entries keep no bytes here: they are regenerated from the store)
+    book: BTreeMap<String, bool>,
+    depth: usize,
+    path: Vec<usize>,
+}
+
+fn compat_mut(t: &mut TableModel) -> &mut [u32; 4] {
+    match t {
+        TableModel::F1(t) => &mut t.compat,
+        TableModel::F2(t) => &mut t.compat,
+    }
+}
+fn compat_ref(t: &TableModel) -> [u32; 4] {
+    match t {
+        TableModel::F1(t) => t.compat,
+        TableModel::F2(t) => t.compat,
+    }
+}
+
+/// (entry position, uri, format) of every live (not retired) entry of a table
+fn live_entries(t: &TableModel) -> Vec<(usize, String, u8)> {
+    match t {
+        TableModel::F2(t) => {
+            let ids = t2_ids(t).unwrap();
+            t.entries
+                .iter()
+                .enumerate()
+                .filter(|(_, e)| !e.ignored)
+                .map(|(i, e)| (i, expand_uri(&t.template, &ids[i]), e.patch_format.unwrap_or(t.default_format)))
+                .collect()
+        }
+        TableModel::F1(t) => (1..=t.max_entry_index as usize)
+            .filter(|i| t.applied[i / 8] & (1 << (i % 8)) == 0)
+            .map(|i| (i, expand_uri(&t.template, &Id::Num(i as u32)), t.patch_format))
+            .collect(),
+    }
+}
+
+fn retire(t: &mut TableModel, pos: usize) {
+    match t {
+        TableModel::F2(t) => t.entries[pos].ignored = true,
+        TableModel::F1(t) => t.applied[pos / 8] |= 1 << (pos % 8),
+    }
+}
+
+/// patch bytes for `uri` given the current models, plus the models after a successful application
+fn store(
+    sc: &ExtScenario,
+    ift: &Option<TableModel>,
+    iftx: &Option<TableModel>,
+    uri: &str,
+) -> Option<(Vec<u8>, u8)> {
+    for (ti, t) in [ift, iftx].into_iter().enumerate() {
+        let Some(t) = t else { continue };
+        for (pos, u, fmt) in live_entries(t) {
+            if u != uri {
+                continue;
+            }
+            let compat = compat_ref(t);
+            return Some(match fmt {
+                3 => {
+                    let gid = (pos as u32 % 5) + 1;
+                    (
+                        glyph_keyed_patch(compat, false, &[gid], &[*b"glyf"], &[vec![vec![0xA0 + gid as u8; gid as usize]]], 0),
+                        3,
+                    )
+                }
+                f => {
+                    let mut ops: Vec<(TagB, TableOp)> = vec![];
+                    if sc.consistent_store {
+                        let (a, b) = next_tables(ift, iftx, ti, pos, f);
+                        if f == 1 || ti == 0 {
+                            if let Some(a) = &a {
+                                ops.push((*b"IFT ", TableOp::Replace(encode_table(a))));
+                            }
+                        }
+                        if f == 1 || ti == 1 {
+                            if let Some(b) = &b {
+                                ops.push((*b"IFTX", TableOp::Replace(encode_table(b))));
+                            }
+                        }
+                    } else {
+                        ops.push((*b"tabZ", TableOp::Replace(vec![1, 2, 3])));
+                    }
+                    (table_keyed_patch(compat, &ops, 0), f)
+                }
+            });
+        }
+    }
+    None
+}
+
+/// mapping tables after the invalidating patch of entry (table ti, position pos) has been applied
+fn next_tables(
+    ift: &Option<TableModel>,
+    iftx: &Option<TableModel>,
+    ti: usize,
+    pos: usize,
+    format: u8,
+) -> (Option<TableModel>, Option<TableModel>) {
+    let mut a = ift.clone();
+    let mut b = iftx.clone();
+    {
+        let own = if ti == 0 { a.as_mut() } else { b.as_mut() };
+        let own = own.unwrap();
+        retire(own, pos);
+        compat_mut(own)[3] += 16;
+    }
+    if format == 1 {
+        let other = if ti == 0 { b.as_mut() } else { a.as_mut() };
+        if let Some(o) = other {
+            compat_mut(o)[3] += 16;
+        }
+    }
+    (a, b)
+}
+
+fn key(s: &State) -> u64 {
+    let mut h = Fnv::new();
+    h.bytes(&s.font);
+    for (k, v) in &s.book {
+        h.str(k);
+        h.byte(*v as u8);
+    }
+    h.finish()
+}
+
+pub fn explore(ctx: &Ctx, base: &BaseTables, sc: &ExtScenario, defs: &[Def], sds: &[SubsetDefinition], local: &mut Local) -> (u64, u64, usize) {
+    let n_entries = |t: &Option<TableModel>| match t {
+        None => 0,
+        Some(TableModel::F2(t)) => t.entries.len(),
+        Some(TableModel::F1(t)) => t.max_entry_index as usize,
+    };
+    let ift = Some(sc.ift.clone());
+    let horizon = n_entries(&ift) + n_entries(&sc.iftx) + 2;
+    let font = wrap_font(
+        base,
+        ift.as_ref().map(encode_table).as_deref(),
+        sc.iftx.as_ref().map(encode_table).as_deref(),
+    );
+    let init = State {
+        font,
+        ift,
+        iftx: sc.iftx.clone(),
+        book: BTreeMap::new(),
+        depth: 0,
+        path: vec![],
+    };
+    let mut seen: HashSet<u64> = HashSet::new();
+    seen.insert(key(&init));
+    let mut queue = VecDeque::from([init]);
+    let (mut states, mut transitions, mut max_depth) = (1u64, 0u64, 0usize);
+    while let Some(st) = queue.pop_front() {
+        for (di, sd) in sds.iter().enumerate() {
+            transitions += 1;
+            local.evals += 1;
+            let mut path = st.path.clone();
+            path.push(di);
+            let case = || json!({"kind":"ext","scenario": sc, "path": path});
+            // ---- select
+            let sel = guard(|| {
+                let fr = FontRef::new(&st.font).map_err(|e| format!("font: {e}"))?;
+                let g = PatchGroup::select_next_patches(fr, sd).map_err(|e| format!("{e}"))?;
+                let uris: Vec<String> = g.uris().map(|s| s.to_string()).collect();
+                Ok::<_, String>((g, uris))
+            });
+            let (group, uris) = match sel {
+                Err(p) => {
+                    ctx.run.violation(&format!("extension run: select panics: {} at {}", p.kind(), p.site()), &p.message, case());
+                    continue;
+                }
+                Ok(Err(e)) => {
+                    if std::env::var("C19_DEBUG").is_ok() {
+                        eprintln!("select err: {e}");
+                    }
+                    local.all.insert(digest_of(&("ext-select-err", di)));
+                    continue; // an error ends the run
+                }
+                Ok(Ok(x)) => x,
+            };
+            if uris.is_empty() {
+                continue; // fixpoint for this definition
+            }
+            // ---- fetch
+            let mut map: HashMap<String, UriStatus> = HashMap::new();
+            for (u, applied) in &st.book {
+                if *applied {
+                    map.insert(u.clone(), UriStatus::Applied);
+                } else if let Some((bytes, _)) = store(sc, &st.ift, &st.iftx, u) {
+                    map.insert(u.clone(), UriStatus::Pending(bytes));
+                }
+            }
+            let mut fmt_of: BTreeMap<String, u8> = BTreeMap::new();
+            let mut missing = false;
+            for u in &uris {
+                match store(sc, &st.ift, &st.iftx, u) {
+                    Some((bytes, f)) => {
+                        fmt_of.insert(u.clone(), f);
+                        map.entry(u.clone()).or_insert(UriStatus::Pending(bytes));
+                    }
+                    None => missing = true,
+                }
+            }
+            if missing {
+                ctx.run.violation(
+                    "extension run: selected URI is not a live entry of the current mapping tables",
+                    &format!("{uris:?}"),
+                    case(),
+                );
+                continue;
+            }
+            let before: BTreeMap<String, bool> = map.iter().map(|(k, v)| (k.clone(), *v == UriStatus::Applied)).collect();
+            // ---- apply
+            let res = guard(|| group.apply_next_patches_with_decoder(&mut map, &NoopBrotliDecoder));
+            let after: BTreeMap<String, bool> = map.iter().map(|(k, v)| (k.clone(), *v == UriStatus::Applied)).collect();
+            let res = match res {
+                Err(p) => {
+                    ctx.run.violation(&format!("extension run: apply panics: {} at {}", p.kind(), p.site()), &p.message, case());
+                    continue;
+                }
+                Ok(r) => r,
+            };
+            let mut h = Fnv::new();
+            h.str("ext");
+            h.u64(sc.consistent_store as u64);
+            match res {
+                Err(e) => {
+                    if std::env::var("C19_DEBUG").is_ok() {
+                        eprintln!("apply err: {e:?} uris={uris:?}");
+                    }
+                    if before != after {
+                        ctx.run.violation(
+                            "extension run: bookkeeping changed although the round failed",
+                            &format!("{e:?}"),
+                            case(),
+                        );
+                    }
+                    h.str("err");
+                    h.str(&format!("{e:?}").chars().take(24).collect::<String>());
+                    local.all.insert(h.finish());
+                }
+                Ok(new_font) => {
+                    let newly: Vec<String> = after
+                        .iter()
+                        .filter(|(k, v)| **v && before.get(*k) != Some(&true))
+                        .map(|(k, _)| k.clone())
+                        .collect();
+                    if newly.is_empty() {
+                        ctx.run.violation(
+                            "extension run: a successful round applied no URI that was not applied before",
+                            &format!("group {uris:?} book {:?}", before),
+                            case(),
+                        );
+                        continue;
+                    }
+                    if after.iter().any(|(k, v)| !newly.contains(k) && before.get(k) != Some(v)) {
+                        ctx.run.violation(
+                            "extension run: bookkeeping changed for URIs that were not applied",
+                            &format!("before {:?} after {:?}", before, after),
+                            case(),
+                        );
+                        continue;
+                    }
+                    // models after this round
+                    let (mut a, mut b) = (st.ift.clone(), st.iftx.clone());
+                    for u in &newly {
+                        'find: for ti in 0..2 {
+                            let t = if ti == 0 { &a } else { &b };
+                            let Some(t) = t else { continue };
+                            for (pos, uu, fmt) in live_entries(t) {
+                                if &uu == u {
+                                    if fmt == 3 {
+                                        retire(if ti == 0 { a.as_mut().unwrap() } else { b.as_mut().unwrap() }, pos);
+                                    } else if sc.consistent_store {
+                                        let (na, nb) = next_tables(&a, &b, ti, pos, fmt);
+                                        a = na;
+                                        b = nb;
+                                    }
+                                    break 'find;
+                                }
+                            }
+                        }
+                    }
+                    // the mapping tables in the real result must be exactly those
+                    let ok_tables = FontRef::new(&new_font)
+                        .ok()
+                        .map(|f| {
+                            let get = |t: &[u8; 4]| f.table_data(Tag::new(t)).map(|d| d.as_bytes().to_vec());
+                            get(b"IFT ") == a.as_ref().map(encode_table) && get(b"IFTX") == b.as_ref().map(encode_table)
+                        })
+                        .unwrap_or(false);
+                    if !ok_tables {
+                        ctx.run.violation(
+                            "extension run: mapping tables after a successful round are not 'applied entries retired'",
+                            &format!("applied {newly:?}"),
+                            case(),
+                        );
+                        continue;
+                    }
+                    h.str("ok");
+                    if newly.iter().any(|u| fmt_of.get(u) == Some(&3)) {
+                        local.ext_gk_rounds += 1;
+                    } else {
+                        local.ext_tk_rounds += 1;
+                    }
+                    for u in &newly {
+                        h.str(u);
+                        h.byte(fmt_of.get(u).copied().unwrap_or(0));
+                    }
+                    h.u64(st.depth as u64);
+                    let dg = h.finish();
+                    local.all.insert(dg);
+                    local.nontrivial.insert(dg);
+                    let next = State {
+                        font: new_font,
+                        ift: a,
+                        iftx: b,
+                        book: after,
+                        depth: st.depth + 1,
+                        path: path.clone(),
+                    };
+                    max_depth = max_depth.max(next.depth);
+                    if next.depth > horizon {
+                        ctx.run.violation(
+                            "extension run: path longer than the horizon (#entries + 2)",
+                            &format!("depth {}", next.depth),
+                            case(),
+                        );
+                        continue;
+                    }
+                    if seen.insert(key(&next)) {
+                        states += 1;
+                        queue.push_back(next);
+                    }
+                }
+            }
+        }
+    }
+    (states, transitions, max_depth)
+}
+
+fn scenarios(thorough: bool) -> Vec<ExtScenario> {
+    let e = |cps: &[u32], f: u8, children: Option<(bool, Vec<u32>)>| {
+        let mut x = E2::plain();
+        x.cps = Cps::Set { bias_kind: 0, bias: 0, members: cps.to_vec() };
+        x.patch_format = Some(f);
+        x.children = children;
+        x
+    };
+    let mut out = vec![];
+    let iftx_opts: Vec<Option<TableModel>> = {
+        let mut v: Vec<Option<TableModel>> = vec![None];
+        for (f0, f1) in [(3u8, 3u8), (2, 3), (3, 2), (2, 2), (1, 3)] {
+            let mut t = t2_of(vec![e(&[A], f0, None), e(&[B], f1, None)]);
+            t.template = b"q/{id}".to_vec();
+            t.compat = [9, 9, 9, 9];
+            v.push(Some(TableModel::F2(t)));
+        }
+        // format 1 glyph keyed IFTX
+        v.push(Some(TableModel::F1(T1 {
+            compat: [9, 9, 9, 9],
+            max_entry_index: 2,
+            max_glyph_map_entry_index: 2,
+            glyph_count: 6,
+            first_mapped_glyph: 1,
+            entry_index: vec![1, 2, 1, 0, 0],
+            feature_map: None,
+            applied: vec![0],
+            template: b"q/{id}".to_vec(),
+            patch_format: 3,
+            cff_off: None,
+            cff2_off: None,
+        })));
+        v
+    };
+    let formats: Vec<[u8; 3]> = {
+        let mut v = vec![];
+        for a in [1u8, 2, 3] {
+            for b in [1u8, 2, 3] {
+                for c in [1u8, 2, 3] {
+                    v.push([a, b, c]);
+                }
+            }
+        }
+        v
+    };
+    for f in &formats {
+        for child in [None, Some((false, vec![0u32, 1])), Some((true, vec![0, 1]))] {
+            if child.is_some() && !thorough && f[2] == 1 {
+                continue;
+            }
+            let t = t2_of(vec![e(&[A], f[0], None), e(&[B], f[1], None), e(&[A, B], f[2], child.clone())]);
+            for x in &iftx_opts {
+                for consistent_store in [true, false] {
+                    if !consistent_store && f.iter().all(|v| *v == 3) && x.is_none() {
+                        continue;
+                    }
+                    out.push(ExtScenario {
+                        ift: TableModel::F2(t.clone()),
+                        iftx: x.clone(),
+                        consistent_store,
+                    });
+                }
+            }
+        }
+    }
+    // format-1 IFT (glyph keyed, feature map) with the IFTX options
+    for x in &iftx_opts {
+        out.push(ExtScenario {
+            ift: TableModel::F1(T1 {
+                compat: [1, 2, 3, 4],
+                max_entry_index: 4,
+                max_glyph_map_entry_index: 3,
+                glyph_count: 6,
+                first_mapped_glyph: 1,
+                entry_index: vec![1, 2, 3, 1, 0],
+                feature_map: Some(vec![FRec { tag: LIGA, first_new: 4, maps: vec![(1, 2)] }]),
+                applied: vec![0],
+                template: b"p/{id}".to_vec(),
+                patch_format: 3,
+                cff_off: None,
+                cff2_off: None,
+            }),
+            iftx: x.clone(),
+            consistent_store: true,
+        });
+    }
+    out
+}
+
+fn ext_defs() -> Vec<Def> {
+    let mut v: Vec<Def> = [vec![A], vec![B], vec![A, B]]
+        .into_iter()
+        .map(|c| Def { cps: DCps::Set(c), feats: DFeat::Set(vec![]), ds: DDs::Ranges(vec![]) })
+        .collect();
+    v.push(Def { cps: DCps::Set(vec![A, B, C]), feats: DFeat::Set(vec![LIGA]), ds: DDs::Ranges(vec![]) });
+    v
+}
+
+pub fn run_ext(ctx: &Ctx, base: &BaseTables) {
+    let run = ctx.run;
+    let scs = scenarios(run.tier == Tier::Thorough);
+    let defs = ext_defs();
+    let sds: Vec<_> = defs.iter().map(to_subset_definition).collect();
+    run.bound("ext_scenarios", json!(scs.len()));
+    run.bound("ext_definitions_per_state", json!(defs.len()));
+    let totals = Mutex::new((0u64, 0u64, 0usize));
+    let (scs_r, defs_r, sds_r) = (&scs, &defs, &sds);
+    par_for(scs.len(), |i| {
+        let mut l = Local::default();
+        let (s, t, d) = explore(ctx, base, &scs_r[i], defs_r, sds_r, &mut l);
+        let mut g = totals.lock().unwrap();
+        g.0 += s;
+        g.1 += t;
+        g.2 = g.2.max(d);
+        drop(g);
+        ctx.merge(l);
+    });
+    let g = totals.lock().unwrap();
+    run.count("ext_states", g.0);
+    run.count("ext_transitions", g.1);
+    run.extra("ext_max_depth", json!(g.2));
+    // determinism: the first scenarios explored twice give the same counts
+    let mut l = Local::default();
+    for sc in scs.iter().take(4) {
+        let a = explore(ctx, base, sc, &defs, &sds, &mut l);
+        let b = explore(ctx, base, sc, &defs, &sds, &mut l);
+        if a != b {
+            run.machinery_error("extension search is not deterministic");
+        }
+    }
+    run.sample(json!({"space":"ext","scenario": scs[scs.len() / 2], "definitions": defs}));
+}
+
+pub fn replay(run: &Run, base: &BaseTables, case: &Value) {
+    let sc: ExtScenario = serde_json::from_value(case["scenario"].clone()).expect("scenario");
+    let ctx = Ctx { run, sink: Mutex::new(Local::default()) };
+    let defs = ext_defs();
+    let sds: Vec<_> = defs.iter().map(to_subset_definition).collect();
+    let mut l = Local::default();
+    let r = explore(&ctx, base, &sc, &defs, &sds, &mut l);
+    println!("replayed extension scenario: states={} transitions={} max_depth={}", r.0, r.1, r.2);
+}
